@@ -7,5 +7,5 @@ export CARGO_NET_OFFLINE=true
 mkdir -p .cache evidence replays
 ( cd coq && coq_makefile -f _CoqProject -o Makefile >/dev/null && timeout 3000 make -j"$(nproc)" >/dev/null )
 ( cd driver && bash build.sh )
-( cd harness && cargo build --offline --quiet --bins )
+( cd harness && cargo build --offline --quiet --bins --lib )
 echo setup-ok
